@@ -92,16 +92,16 @@ KNOWN_DEFECT_nested_grid_backup = False  # repaired in /repo (fix: 73844b2)
 #                           StateRetainer walks (root, root.iterChildrenWithMaterials(deep=True)), which yields the
 #                           materials of the root's DESCENDANTS only; a Component has no children, so its own material
 #                           (whose cache holds e.g. 'pseudoDensity') is neither backed up nor restored.
-KNOWN_DEFECT_component_scope_skips_own_material = False
+KNOWN_DEFECT_component_scope_skips_own_material = False  # repaired in /repo (fix: ebf73eb)
 #  params_from_copies_serial_number: b2.updateParamsFrom(b)  or  b2.copyParamsFrom(b)
 #                           -> b2.p.serialNum == b.p.serialNum (both loop over other.p.items(), which includes serialNum):
 #                           two live objects share a serial number.
-KNOWN_DEFECT_params_from_copies_serial_number = False
+KNOWN_DEFECT_params_from_copies_serial_number = False  # repaired in /repo (fix: 5065998)
 #  readonly_history_and_delete: makeParametersReadOnly(r); b.p[("power", 3)] = 7.0 is accepted (the tuple key makes
 #                           setattr raise TypeError, __setitem__ then writes self._hist directly) and
 #                           del b.p["power"] is accepted and b.p.power reads the default afterwards (__delitem__
 #                           goes through delattr, which the read-only switch of __setattr__ does not see).
-KNOWN_DEFECT_readonly_history_and_delete = False
+KNOWN_DEFECT_readonly_history_and_delete = False  # repaired in /repo (fix: 5a2ed94)
 
 
 # ---------------------------------------------------------------------------
